@@ -770,3 +770,25 @@ Proof.
     rewrite N1 in N2. injection N2; auto.
   - intros ->. rewrite Ha in Hb. injection Hb as ->. reflexivity.
 Qed.
+
+(* ------------------------------------------------------------------ label containers *)
+Lemma labels_of_column y : labels_of (Column (map (fun x => [x]) y)) = Some y.
+Proof.
+  unfold labels_of. induction y as [|a y IH]; simpl; [reflexivity|].
+  rewrite map_map in *. simpl in *. rewrite IH. reflexivity.
+Qed.
+
+(* an (n,1) container is encoded exactly like the (n,) list of its labels; a flat container like itself *)
+Theorem one_hot_column y :
+  one_hot_c (Column (map (fun x => [x]) y)) = one_hot y /\ one_hot_c (Flat y) = one_hot y.
+Proof. unfold one_hot_c. rewrite labels_of_column. split; reflexivity. Qed.
+
+Lemma labels_of_column_inv rows y :
+  labels_of (Column rows) = Some y -> rows = map (fun x => [x]) y.
+Proof.
+  unfold labels_of. revert y; induction rows as [|r rows IH]; intros y H; simpl in H.
+  - injection H as <-. reflexivity.
+  - destruct r as [|x [|x' r']]; try discriminate.
+    destruct (collect (map (fun r => match r with [x0] => Some x0 | _ => None end) rows)) as [t|] eqn:E; [|discriminate].
+    simpl in H. injection H as <-. simpl. f_equal. apply IH. reflexivity.
+Qed.
